@@ -44,7 +44,25 @@ type c14Prog struct {
 	FailListenerAt int
 	FailClientAt   int
 	CloseFault     int
+	// RealUDP: loopback UDP sockets instead of the in-memory ones, so that the
+	// Linux batch read loops and the batch transmit path run under the detector
+	RealUDP bool
 }
+
+// c14Sock is a socket the program can make fail.
+type c14Sock interface {
+	net.PacketConn
+	fail()
+}
+
+type c14SimSock struct{ *sim.PConn }
+
+func (c c14SimSock) fail() { c.InjectReadError(errC14Socket) }
+
+type c14UDPSock struct{ *net.UDPConn }
+
+// a read deadline in the past makes the pending recvmmsg return an error
+func (c c14UDPSock) fail() { c.SetReadDeadline(time.Now().Add(-time.Second)) }
 
 type pairCounter struct {
 	mu    sync.Mutex
@@ -156,16 +174,37 @@ func c14Run(p c14Prog, pc *pairCounter) (calls int64) {
 	blk := func() kcp.BlockCrypt { b, _ := sim.NewBlockCrypt(p.Cipher, key); return b }
 	n := sim.NewNet()
 	n.Direct = true
-	laddr := &net.UDPAddr{IP: net.IPv4(127, 0, 0, 1), Port: 7000}
-	lconn := n.Listen(laddr)
-	L, _ := kcp.ServeConn(blk(), p.FEC[0], p.FEC[1], lconn)
+	listen := func(a *net.UDPAddr) c14Sock {
+		if p.RealUDP {
+			c, err := net.ListenUDP("udp4", &net.UDPAddr{IP: net.IPv4(127, 0, 0, 1)})
+			if err != nil {
+				panic(err)
+			}
+			return c14UDPSock{c}
+		}
+		return c14SimSock{n.Listen(a)}
+	}
+	lconn := listen(&net.UDPAddr{IP: net.IPv4(127, 0, 0, 1), Port: 7000})
+	laddr := lconn.LocalAddr()
+	var L *kcp.Listener
+	if p.RealUDP {
+		L, _ = kcp.ServeConn(blk(), p.FEC[0], p.FEC[1], lconn.(c14UDPSock).UDPConn)
+	} else {
+		L, _ = kcp.ServeConn(blk(), p.FEC[0], p.FEC[1], lconn.(c14SimSock).PConn)
+	}
 	var sessions []*kcp.UDPSession
-	var conns []*sim.PConn
+	var conns []c14Sock
 	var smu sync.Mutex
 	for i := 0; i < p.Clients; i++ {
 		a := &net.UDPAddr{IP: net.IPv4(127, 0, 1, byte(i+1)), Port: 8000 + i}
-		c := n.Listen(a)
-		s, _ := kcp.NewConn3(uint32(1000+i), laddr, blk(), p.FEC[0], p.FEC[1], c)
+		c := listen(a)
+		var pc net.PacketConn = c
+		if u, ok := c.(c14UDPSock); ok {
+			pc = u.UDPConn // the library looks for the concrete type to switch to batch I/O
+		} else {
+			pc = c.(c14SimSock).PConn
+		}
+		s, _ := kcp.NewConn3(uint32(1000+i), laddr, blk(), p.FEC[0], p.FEC[1], pc)
 		// deprecated switches only before traffic (the property excludes them)
 		s.SetStreamMode(i%2 == 0)
 		s.SetNoDelay(1, 10, 2, 1)
@@ -235,7 +274,7 @@ func c14Run(p c14Prog, pc *pairCounter) (calls int64) {
 	// the transport fails under the running calls
 	for _, f := range []struct {
 		at int
-		c  *sim.PConn
+		c  c14Sock
 	}{{p.FailListenerAt, lconn}, {p.FailClientAt, conns[0]}} {
 		if f.at <= 0 {
 			continue
@@ -250,7 +289,7 @@ func c14Run(p c14Prog, pc *pairCounter) (calls int64) {
 				case <-time.After(200 * time.Microsecond):
 				}
 			}
-			f.c.InjectReadError(errC14Socket)
+			f.c.fail()
 		}()
 	}
 	// traffic keeps flowing: a reader drains whatever arrives on every session
@@ -292,12 +331,12 @@ func c14Run(p c14Prog, pc *pairCounter) (calls int64) {
 	go func() { defer cw.Done(); L.Close() }()
 	if p.CloseFault&1 != 0 {
 		cw.Add(1)
-		go func() { defer cw.Done(); lconn.InjectReadError(errC14Socket) }()
+		go func() { defer cw.Done(); lconn.fail() }()
 	}
 	if p.CloseFault&2 != 0 {
 		for _, c := range conns {
 			cw.Add(1)
-			go func(c *sim.PConn) { defer cw.Done(); c.Close() }(c)
+			go func(c c14Sock) { defer cw.Done(); c.Close() }(c)
 		}
 	}
 	cw.Wait()
@@ -338,6 +377,7 @@ func TestC14Race(t *testing.T) {
 			p.FailClientAt = 1 + rng.IntN(p.Goroutines*p.Calls)
 		}
 		p.CloseFault = rng.IntN(4)
+		p.RealUDP = rng.IntN(3) == 0
 		pc.mu.Lock()
 		before := pc.hits
 		pc.mu.Unlock()
@@ -349,7 +389,7 @@ func TestC14Race(t *testing.T) {
 		pc.mu.Unlock()
 		rec.Case(hx.Hash64(p), co > 0, "cipher_"+p.Cipher, fmt.Sprintf("fec_%v", p.FEC[0] > 0),
 			fmt.Sprintf("listener_socket_fails_during_calls_%v", p.FailListenerAt > 0), fmt.Sprintf("client_socket_fails_during_calls_%v", p.FailClientAt > 0),
-			fmt.Sprintf("close_fault_%d", p.CloseFault))
+			fmt.Sprintf("close_fault_%d", p.CloseFault), fmt.Sprintf("real_udp_sockets_%v", p.RealUDP))
 		if rec.WantSample() {
 			rec.Sample(p)
 		}
